@@ -83,6 +83,12 @@ CHECKS.update({
             "on the cone-interior pixels; vertical-flip relation",
             "local pipelines (matching cost, cbca, wta, refinement, median, bilateral, cross-checking), 5 crops per scene", "3 C13"),
 })
+CHECKS.update({
+    "C15": ("history + model on the tracer log of every scale pass: pass count, image sizes, coarsest interval, per-pixel "
+            "range rule (existential over the 3x3 coarse neighbourhood of the geometric parent), steps after the multiscale "
+            "step, deep comparison of the input datasets before/after the run",
+            "num_scales 2-4, scale_factor 2-3, marge 0-3, sizes not divisible by the factor, mono/multiband, masks", "3 C15"),
+})
 NOTES = {}
 
 def main():
